@@ -95,6 +95,7 @@ func jwksJSON(which string) string {
 
 // tokenSpec is the ground truth of a rendered ID token.
 type tokenSpec struct {
+	SignKey string // "" / "k1" (RS256 k1, or ES256 k2 for odd variants) | "k3"
 	Class   string // rendering class (see mintID)
 	Aud     any    // value of the aud claim (nil = absent)
 	Nonce   any    // value of the nonce claim (nil = absent)
@@ -162,6 +163,9 @@ func mintID(ts tokenSpec) (tok string, sigOK bool) {
 	case "good", "audAbsent", "audForeign", "audNearMiss", "audArrayWithClient",
 		"nonceAbsent", "nonceForeign", "nonceEmpty", "nonceNonString", "expired":
 		// claims differ (set by the caller), the signature is honest
+		if ts.SignKey == "k3" {
+			return rs("k3", ks.k3), true
+		}
 		if ts.Variant%2 == 1 {
 			in := hdr("ES256", "k2") + "." + payload
 			return in + "." + b64.EncodeToString(signES256(ks.k2, in)), true
